@@ -691,7 +691,7 @@ VMLoop:
 			// save current sp to come back to same position
 			handler.sp = vm.sp
 			// remove current error if any
-			vm.curFrame.errHandlers.err = nil
+			handler.err = nil
 			// set ip to finally's position
 			vm.ip = pos - 1
 		case OpUnary:
@@ -831,9 +831,9 @@ func (vm *VM) xOpSetupCatch() {
 		hdl := errHandlers.last()
 		hdl.catch = 0
 
-		if errHandlers.err != nil {
-			value = errHandlers.err
-			errHandlers.err = nil
+		if hdl.err != nil {
+			value = hdl.err
+			hdl.err = nil
 		}
 	}
 
@@ -859,10 +859,10 @@ func (vm *VM) xOpThrow() error {
 	switch op {
 	case 0: // system
 		errHandlers := vm.curFrame.errHandlers
-		if errHandlers.hasError() {
+		if pendingErr := errHandlers.pendingError(); pendingErr != nil {
 			errHandlers.pop()
 			// do not put position info to error for re-throw after finally.
-			if err := vm.throw(errHandlers.err, true); err != nil {
+			if err := vm.throw(pendingErr, true); err != nil {
 				return err
 			}
 		} else if pos := errHandlers.hasReturnTo(); pos > 0 {
@@ -878,6 +878,9 @@ func (vm *VM) xOpThrow() error {
 			}
 			vm.sp = handler.sp
 			vm.ip = pos - 1
+		} else {
+			// try statement is completed, remove its handler.
+			errHandlers.pop()
 		}
 	case 1: // user
 		obj := vm.stack[vm.sp-1]
@@ -952,8 +955,8 @@ func (vm *VM) throw(err *RuntimeError, noTrace bool) error {
 }
 
 func (vm *VM) handleThrownError(frame *frame, err *RuntimeError) error {
-	frame.errHandlers.err = err
 	handler := frame.errHandlers.last()
+	handler.err = err
 
 	// if we have catch>0 goto catch else follow finally (one of them must be set)
 	if handler.catch > 0 {
@@ -1438,15 +1441,20 @@ type errHandler struct {
 	catch    int
 	finally  int
 	returnTo int
+	err      *RuntimeError // pending error of the try statement
 }
 
 type errHandlers struct {
 	handlers []errHandler
-	err      *RuntimeError
 }
 
-func (t *errHandlers) hasError() bool {
-	return t != nil && t.err != nil
+// pendingError returns the pending error of the last handler which is
+// re-thrown after finally block if it is not handled.
+func (t *errHandlers) pendingError() *RuntimeError {
+	if t.hasHandler() {
+		return t.handlers[len(t.handlers)-1].err
+	}
+	return nil
 }
 
 func (t *errHandlers) pop() bool {
